@@ -11,6 +11,7 @@ import FordModel.Lemmas.External
 import FordModel.Lemmas.ExternalRT
 import FordModel.Lemmas.ExternalReach
 import FordModel.Lemmas.ExternalUrl
+import FordModel.Lemmas.ExternalMulti
 namespace Ford.C16
 open Ford Ford.Ext
 
@@ -351,6 +352,98 @@ theorem wrong_shape_aborts_witness :
     (load { remote := false, url := "/A/doc".toList }
       (.got (.arr [.obj [(kUrl, .str "./module/m.html".toList), (kObj, .str "module".toList)]]))).isAborted
       = true := by
+  decide
+
+/-! ## Several external projects: an unusable one costs only its *own* links -/
+
+/-- What the translator read from `load_external_modules` (generated `handlerExits`): one entry per way of
+    failing of the `fetchErrors` table, in the same order; each exit is one of the known ones; and a way of
+    failing has a handler exactly when the `except` clause catches it. -/
+theorem handler_exits_table :
+    Gen.handlerExits.map (·.1) = Gen.fetchErrors.map (·.1) ∧
+    (∀ kv ∈ Gen.handlerExits, kv.2 ∈ knownExits) ∧
+    (∀ kv ∈ Gen.handlerExits, catches kv.1 = (kv.2 != kUncaught)) := by
+  decide
+
+/-- **No handler leaves the loop over the external projects.**  For every way of failing to fetch a
+    description, the handler that catches it (generated table, read from the source) either falls through
+    to the conversion with an empty description or continues with the next project - it never ends the
+    loop (`break`, `return`) and never re-raises. -/
+theorem handler_never_leaves_loop (exc : Str) :
+    handlerFlow exc = .proceed ∨ handlerFlow exc = .next :=
+  handlerFlow_goes_on (by decide) exc
+
+/-- **An unusable external project is as if it were not listed.**  Whatever stands before and after it in
+    the `external:` option - usable projects, other unusable ones, in any number and order -, a project
+    whose description cannot be fetched (in a way the `except` clause names) changes nothing about what
+    `load_external_modules` does with the others: the same objects are appended, in the same order, and the
+    run ends (or not) exactly as without it. -/
+theorem unusable_project_costs_only_its_own_links (pre post : List (Base × Fetch)) (b : Base)
+    (exc : Str) (hc : catches exc = true) :
+    loadAll (pre ++ (b, .failed exc) :: post) = loadAll (pre ++ post) :=
+  loadAllWith_drop_failed handlerFlow b exc hc (handler_never_leaves_loop exc) pre post []
+
+/-- **Every usable project is loaded completely.**  When each listed project either has a description
+    that converts or fails to be fetched in a caught way, the run is not aborted and the objects appended
+    are exactly those every project contributes when it is listed alone, project after project. -/
+theorem every_usable_project_loaded (ps : List (Base × Fetch)) (h : ∀ p ∈ ps, harmless p = true) :
+    loadAll ps = .loaded ((ps.map objsOf).flatten) := by
+  simpa [loadAll] using loadAllWith_harmless handlerFlow handler_never_leaves_loop ps [] h
+
+/-- **The round trip, with other external projects around.**  A is exported (valid kinds) and listed by B
+    at any position among other external projects, each of which is usable or unusable in a caught way.
+    Then the run is not aborted and every entity of A reachable through exported attributes is among the
+    entities appended to B's lists with its name, its kind, its list, and URL = *A's own* location /
+    `get_url e` - not the location of a neighbour. -/
+theorem roundtrip_among_several (pre post : List (Base × Fetch))
+    (hpre : ∀ p ∈ pre, harmless p = true) (hpost : ∀ p ∈ post, harmless p = true)
+    (b : Base) (version : Str) (mods : List Ent) (hv : validList mods = true)
+    (hn : mods.all isNode = true) (m : Ent) (hm : m ∈ mods) (e : Ent) (hr : Reach m e)
+    (name : Str) (url : Option Str) (obj : Str) (pt : Option Str) (attrs : List (Str × Attr))
+    (he : e = .node name url obj pt attrs) :
+    ∃ os, loadAll (pre ++ (b, .got (dumpModules version mods)) :: post) = .loaded os ∧
+      ∃ x ∈ entriesAll os, x.name = .str name ∧ x.cls = kindOf obj pt ∧
+        x.list = listOf (kindOf obj pt) ∧ x.url = .str (rebase b (urlText url)) := by
+  obtain ⟨osA, hA, x, hx, hp⟩ := roundtrip b version mods hv hn m hm e hr name url obj pt attrs he
+  have hall : ∀ p ∈ pre ++ (b, Fetch.got (dumpModules version mods)) :: post, harmless p = true := by
+    intro p hp'
+    rcases List.mem_append.mp hp' with h | h
+    · exact hpre p h
+    · rcases List.mem_cons.mp h with h | h
+      · subst h; simp [harmless, hA, isOk]
+      · exact hpost p h
+  refine ⟨_, every_usable_project_loaded _ hall, x, ?_, hp⟩
+  simp only [List.map_append, List.map_cons, List.flatten_append, List.flatten_cons, entriesAll_append,
+    List.mem_append]
+  right; left
+  simpa [objsOf, hA] using hx
+
+/-- A single listed project: the loop is the one-project `load` of the theorems above. -/
+theorem single_project_load (b : Base) (f : Fetch) : loadAll [(b, f)] = load b f := by
+  cases f with
+  | got doc =>
+    simp only [loadAll, loadAllWith, load]
+    cases importDoc b doc <;> simp
+  | failed exc =>
+    simp only [loadAll, loadAllWith, load]
+    cases catches exc with
+    | false => rfl
+    | true =>
+      rcases handler_never_leaves_loop exc with h | h <;> simp [h, importDoc_empty]
+
+/-- Why `handler_never_leaves_loop` is load-bearing: with a handler that ends the loop (`return` /
+    `break`) an unusable project listed first costs every link into the usable project listed after it,
+    while the run still succeeds - and with the order swapped nothing is lost. -/
+theorem leaving_the_loop_loses_later_projects_witness :
+    let a : Base × Fetch := ({ remote := false, url := ['/', 'A'] },
+      .got (.arr [.obj [(kName, .str ['m']), (kUrl, .str ['.', '/', 'm', '.', 'h', 't', 'm', 'l']),
+                        (kObj, .str ['m', 'o', 'd', 'u', 'l', 'e'])]]))
+    let x : Base × Fetch := ({ remote := false, url := ['/', 'X'] },
+      .failed ['U', 'R', 'L', 'E', 'r', 'r', 'o', 'r'])
+    catches ['U', 'R', 'L', 'E', 'r', 'r', 'o', 'r'] = true →
+    (loadAllWith (fun _ => .stop) [x, a] []).count = 0 ∧
+    (loadAllWith (fun _ => .stop) [a, x] []).count = 1 ∧
+    (loadAllWith (fun _ => .proceed) [x, a] []).count = 1 := by
   decide
 
 /-- Non-vacuity: a two-level module tree is valid, and its round trip appends the module and its
